@@ -6,7 +6,8 @@ From Falcon Require Import Base.Res Graph.NMap Graph.NMapFacts Graph.Graph Graph
   Graph.OrderProofs Graph.LoopProofs Graph.BackEdges Graph.PreOrderProofs Graph.DomTreeProofs Graph.ClosureTotal Graph.IdomExists Graph.PreOrderDfs
   Graph.DomModel Graph.FrontierModel Graph.Unreachable Graph.TopoProofs Graph.AcyclicProofs Graph.PostOrderProofs Graph.ReducibleModel Graph.PreOrderIsDfs Graph.LoopModel Graph.LoopTreeModel Graph.TransPredsModel Graph.SpecDfs
   Graph.OracleDfsProofs Graph.PreOrderSpec Graph.DfsTreeModel Graph.AcyclicGraphModel Graph.SemiNcaFacts Graph.DfsFacts
-  Graph.PathLemma Graph.SemiDomTheory Graph.SemiNcaTheory.
+  Graph.PathLemma Graph.SemiDomTheory Graph.SemiNcaTheory Graph.SemiLoop Graph.SemiLoopMain Graph.DfsOrderModel
+  Graph.DfsParent Graph.SemiNcaFinal Graph.Unconditional.
 Import ListNotations.
 Local Open Scope N_scope.
 
@@ -81,8 +82,8 @@ Print Assumptions df_check_sound.
 
 (* [F] Semi-NCA (with compress) is correct on ALL digraphs with vertex set {0..n-1}, n <= 3, for every
    root, unreachable vertices included: it returns Ok and its result is the immediate-dominator relation.
-   Bound n <= 3 (1 + 2 + 32 + 1536 graph/root pairs), by vm_compute.  Unbounded correctness of
-   Semi-NCA is NOT proved (see notes/C11.md): it is covered per output by idom_check ([V]). *)
+   Bound n <= 3 (1 + 2 + 32 + 1536 graph/root pairs), by vm_compute.  Since round 3 the unbounded theorem is
+   snca_correct (end of this file); this one is kept as an independent cross-check of specification and validator. *)
 Theorem semi_nca_correct_le_3 : forall n mask root,
   n <= 3 -> mask < 2 ^ (n * n) -> root < n ->
   exists g m, build (range n) (edges_of n mask) = Ok g /\
@@ -228,7 +229,8 @@ Theorem idom_unique : forall es r i j v, idom es r i v -> idom es r j v -> i = j
 Proof. exact IdomExists.idom_unique. Qed.
 Print Assumptions idom_unique.
 
-(* [U] MODEL functions, given that the idom map of the model passes idom_check (= is the idom relation):
+(* [U] MODEL functions, given that the idom map of the model passes idom_check (= is the idom relation; the premise is
+   discharged for every graph by snca_correct, see the *_all theorems at the end of this file):
    compute_dominator_tree, compute_dominators, compute_back_edges, compute_dominance_frontiers return Ok and
    are exactly the textbook objects *)
 Theorem dominator_tree_correct : forall (V E : Type) (HV : Vertex V) (HE : Edge E) (g : graph V E) r m,
@@ -489,3 +491,94 @@ Theorem nca_step : forall es r l, is_dfs_pre_order es r l -> forall x w,
   dom es r x w.
 Proof. exact SemiNcaTheory.nca_step. Qed.
 Print Assumptions nca_step.
+
+(* ======================================================================================================
+   Round 3, part 2: UNBOUNDED Semi-NCA.  The model of compute_immediate_dominators is correct on EVERY graph. *)
+
+(* [U] the validator is complete: the exact immediate-dominator relation (as a map with unique keys) passes it *)
+Theorem idom_check_complete : forall vs es r (m : list (N * N)),
+  NoDup (map fst m) -> (forall v d, In (v, d) m <-> idom es r d v) -> idom_check vs es r m = true.
+Proof. exact SemiNcaFinal.idom_check_complete. Qed.
+Print Assumptions idom_check_complete.
+
+(* [U] the numbering Semi-NCA uses -- the pre-order of the DFS tree -- IS the depth-first pre-order of the graph, and
+   the tree parent of w is the latest-numbered graph predecessor of w among those numbered before w *)
+Theorem dfs_tree_pre_order : forall (V E : Type) (HV : Vertex V) (HE : Edge E) (g : graph V E) r T l,
+  GraphInv.graph_inv g -> has_vertex g r = true ->
+  compute_dfs_tree g r = Ok T -> compute_pre_order T r = Ok l ->
+  compute_pre_order g r = Ok l /\ forall p w, has_edge T p w = true -> good (edge_keys g) l p w.
+Proof. intros V E HV HE g r T l Hgi Hr. exact (DfsOrderModel.dfs_tree_pre_order g Hgi r Hr T l). Qed.
+Print Assumptions dfs_tree_pre_order.
+
+(* [U] DFS theory: latest-numbered earlier predecessor = DFS-tree parent (proper ancestor; its chain runs through
+   every DFS ancestor) *)
+Theorem dfs_parent_chain : forall es r l, is_dfs_pre_order es r l ->
+  forall (pe : N -> N -> Prop), (forall p v, pe p v -> edge es p v /\ In p l /\ In v l /\ good es l p v) ->
+  (forall p v, pe p v -> anc es l p v /\ p <> v) /\
+  forall par, (forall v p, par v = Some p -> pe p v) -> (forall v, In v l -> v <> r -> exists p, par v = Some p) ->
+    forall u v, anc es l u v -> chainp par v u.
+Proof.
+  intros es r l Hd pe Hpe. split; [exact (DfsParent.pe_anc es r l Hd pe Hpe)|].
+  intros par. exact (DfsParent.anc_chain es r l Hd pe Hpe par).
+Qed.
+Print Assumptions dfs_parent_chain.
+
+(* [U] SEMI-NCA: on every consistent graph with at most usize::MAX vertices and every root vertex, the model of
+   compute_immediate_dominators (DFS tree, pre-order numbering, semidominator loop with path compression, NCA loop,
+   translation back; all fuels included) returns Ok m, m is EXACTLY the textbook immediate-dominator relation
+   (Spec.idom: dominators by path quantification), and m passes the validator idom_check *)
+Theorem snca_correct : forall (V E : Type) (HV : Vertex V) (HE : Edge E) (g : graph V E) r,
+  GraphInv.graph_inv g -> has_vertex g r = true -> N.of_nat (length (vertex_indices g)) <= usize_max ->
+  exists m, compute_immediate_dominators g r = Ok m /\
+            (forall v d, In (v, d) m <-> idom (edge_keys g) r d v) /\
+            idom_check (vertex_indices g) (edge_keys g) r m = true.
+Proof. intros V E HV HE g r Hgi Hr. exact (SemiNcaFinal.snca_correct g Hgi r Hr). Qed.
+Print Assumptions snca_correct.
+
+(* [U] hence the dominator family, loops and reducibility of the MODEL are correct unconditionally *)
+Theorem dominator_tree_all : forall (V E : Type) (HV : Vertex V) (HE : Edge E) (g : graph V E) r,
+  GraphInv.graph_inv g -> has_vertex g r = true -> N.of_nat (length (vertex_indices g)) <= usize_max ->
+  exists t, compute_dominator_tree g r = Ok t /\ GraphInv.graph_inv t /\
+    (forall v, has_vertex t v = true <-> reach (edge_keys g) r v) /\
+    (forall d v, has_edge t d v = true <-> idom (edge_keys g) r d v).
+Proof. intros V E HV HE g r Hgi Hr. exact (Unconditional.dominator_tree_all g Hgi r Hr). Qed.
+Print Assumptions dominator_tree_all.
+Theorem dominators_all : forall (V E : Type) (HV : Vertex V) (HE : Edge E) (g : graph V E) r,
+  GraphInv.graph_inv g -> has_vertex g r = true -> N.of_nat (length (vertex_indices g)) <= usize_max ->
+  exists doms, compute_dominators g r = Ok doms /\ nsorted (map fst doms) /\
+    (forall v, In v (map fst doms) <-> reach (edge_keys g) r v) /\
+    (forall v D, In (v, D) doms -> forall d, In d D <-> dom (edge_keys g) r d v).
+Proof. intros V E HV HE g r Hgi Hr. exact (Unconditional.dominators_all g Hgi r Hr). Qed.
+Print Assumptions dominators_all.
+Theorem back_edges_all : forall (V E : Type) (HV : Vertex V) (HE : Edge E) (g : graph V E) r,
+  GraphInv.graph_inv g -> has_vertex g r = true -> N.of_nat (length (vertex_indices g)) <= usize_max ->
+  exists be, compute_back_edges g r = Ok be /\ forall a b, In (a, b) be <-> back_edge (edge_keys g) r a b.
+Proof. intros V E HV HE g r Hgi Hr. exact (Unconditional.back_edges_all g Hgi r Hr). Qed.
+Print Assumptions back_edges_all.
+Theorem dominance_frontiers_all : forall (V E : Type) (HV : Vertex V) (HE : Edge E) (g : graph V E) r,
+  GraphInv.graph_inv g -> has_vertex g r = true -> N.of_nat (length (vertex_indices g)) <= usize_max ->
+  exists df, compute_dominance_frontiers g r = Ok df /\
+    (forall x, nm_mem x df = has_vertex g x) /\
+    (forall x F, nm_get x df = Some F -> forall y, In y F <-> in_DF (edge_keys g) r x y).
+Proof. intros V E HV HE g r Hgi Hr. exact (Unconditional.dominance_frontiers_all g Hgi r Hr). Qed.
+Print Assumptions dominance_frontiers_all.
+Theorem is_reducible_all : forall (V E : Type) (HV : Vertex V) (HE : Edge E) (g : graph V E) r,
+  GraphInv.graph_inv g -> has_vertex g r = true -> N.of_nat (length (vertex_indices g)) <= usize_max ->
+  exists b, is_reducible g r = Ok b /\ (b = true <-> forward_edges_acyclic (edge_keys g) r).
+Proof. intros V E HV HE g r Hgi Hr. exact (Unconditional.is_reducible_all g Hgi r Hr). Qed.
+Print Assumptions is_reducible_all.
+Theorem loops_all : forall (V E : Type) (HV : Vertex V) (HE : Edge E) (g : graph V E) r,
+  GraphInv.graph_inv g -> has_vertex g r = true -> N.of_nat (length (vertex_indices g)) <= usize_max ->
+  exists loops, compute_loops g r = Ok loops /\ nsorted (map fst loops) /\
+    (forall h, In h (map fst loops) <-> is_header (edge_keys g) r h) /\
+    (forall h L, In (h, L) loops -> forall x, In x L <-> in_loop (edge_keys g) r h x).
+Proof. intros V E HV HE g r Hgi Hr. exact (Unconditional.loops_all g Hgi r Hr). Qed.
+Print Assumptions loops_all.
+Theorem loop_tree_all : forall (V E : Type) (HV : Vertex V) (HE : Edge E) (g : graph V E) r,
+  GraphInv.graph_inv g -> has_vertex g r = true -> N.of_nat (length (vertex_indices g)) <= usize_max ->
+  exists loops t, compute_loops g r = Ok loops /\ compute_loop_tree g r = Ok t /\ GraphInv.graph_inv t /\
+    (forall h L, vertex t h = Ok (h, L) <-> In (h, L) loops) /\
+    (forall h, has_vertex t h = true <-> is_header (edge_keys g) r h) /\
+    (forall a b, has_edge t a b = true <-> loop_nested (edge_keys g) r a b).
+Proof. intros V E HV HE g r Hgi Hr. exact (Unconditional.loop_tree_all g Hgi r Hr). Qed.
+Print Assumptions loop_tree_all.
